@@ -120,7 +120,17 @@ func c10Run(cs c10Case, probe string) (viol string, trunc bool) {
 }
 
 // c10Big writes a file that takes a session longer to deliver than the command stream takes to arrive.
+// c10Contents writes the data files of the content dimension.
+func c10Contents() {
+	WriteScratch("c10/ragged.csv", "item,qty,comment\napple,7,fresh\npear,2\n\nplum,1,x,extra,fields\n,,\nkiwi\n")
+	WriteScratch("c10/kv.log", "item=apple|qty=7\nitem=pear|qty\n=|==|qty=x\n|||\nitem=plum|qty=1|item=again\n")
+	WriteScratch("c10/mapreduce.log", "INFO|20211002-071209|1|f.go:1|8|10|0|0.1|1h|MAPREDUCE:TABLE|item=apple|qty=7\nINFO|20211002-071209|1|f.go:1|8|10|0|0.1|1h|MAPREDUCE:TABLE\nINFO|2021|MAPREDUCE:TABLE|item=pear\nMAPREDUCE:TABLE|qty=2\nINFO|20211002-071209|1|f.go:1|8|10|0|0.1|1h|MAPREDUCE:|=\n"+strings.Repeat("INFO|", 40)+"MAPREDUCE:TABLE|item=plum|qty=1\n")
+	WriteScratch("c10/binary.log", "\x00\xff\xfe,|=\n\xac\xac|\x1b[31m=,\n")
+	WriteScratch("c10/empty.log", "")
+}
+
 func c10Big() {
+	c10Contents()
 	var sb strings.Builder
 	for i := 0; i < 1500; i++ {
 		fmt.Fprintf(&sb, "big line %d\n", i)
@@ -281,6 +291,19 @@ func c10Cases(thorough bool, emit func(c10Case)) {
 			emit(c10Case{Kind: "raw", Payload: raw, PauseMs: 2})
 		})
 	}
+	// the CONTENT of the files a mapreduce query is pointed at, for every log format: ragged CSV rows, blank lines,
+	// malformed key-value tokens, truncated or over-long default-format lines, binary bytes
+	{
+		dir := Scratch() + "/c10/"
+		for _, lf := range []string{"", "logformat default", "logformat generic", "logformat generickv", "logformat csv", "logformat bogus"} {
+			for _, f := range []string{"ragged.csv", "kv.log", "mapreduce.log", "binary.log", "empty.log"} {
+				for _, q := range []string{"select count($line),item group by item", "select sum(qty),max(qty),min(qty),avg(qty),last(item),len(item) group by item order by sum(qty) limit 3",
+					"select $hostname,count($line) from TABLE where qty > 1 group by $hostname", "select item set $x = maskdigits(item) group by $x"} {
+					emit(c10Case{Kind: "raw", Payload: string(WireCommand("map "+q+" "+lf)) + string(WireCommand("cat "+dir+f+" regex:noop "))})
+				}
+			}
+		}
+	}
 	// envelopes
 	b64 := base64.StdEncoding.EncodeToString([]byte("cat " + probe + " regex:noop "))
 	etoks := []string{"protocol", "4.1", "3", "9", "base64", "!!!", b64, ""}
@@ -309,7 +332,7 @@ func init() {
 		ID:    "C10",
 		Level: "exploration",
 		Rule: "client inputs enumerated exhaustively from token alphabets: 9 command words x 12 option suffixes (incl. huge and negative context values) x all sequences of <=2 (quick) / <=3 (thorough) of 16 argument tokens (incl. globs in unclean path form); " +
-			"'map' + all sequences of <=3 / <=4 of 28 query tokens; map followed by a read command; every ordered pair and triple over 6 well-formed commands (cat of a 1500-line file, cat, tail, grep, two map queries) on one session, back to back and 2 ms apart with 1 ms per read(2) (so that later commands arrive while earlier ones are at work); all <=4-token sequences of 8 protocol-envelope tokens; 3 commands split across two Write " +
+			"'map' + all sequences of <=3 / <=4 of 28 query tokens; map followed by a read command; 6 log formats x 4 queries x 5 data files with ragged CSV rows, blank lines, malformed key-value tokens, truncated default-format lines and binary bytes; every ordered pair and triple over 6 well-formed commands (cat of a 1500-line file, cat, tail, grep, two map queries) on one session, back to back and 2 ms apart with 1 ms per read(2) (so that later commands arrive while earlier ones are at work); all <=4-token sequences of 8 protocol-envelope tokens; 3 commands split across two Write " +
 			"calls at every byte; 8 inputs to a health session; plus, under all schedules within two deviations, 4 sessions whose commands finish together so that several goroutines complete the close hand-shake at once.  Each is fed to a real ServerHandler/HealthHandler under the controlled scheduler (panic in ANY goroutine is caught), " +
 			"then a second user's session on the same limiters must still deliver its file.  non-trivial = distinct input strings",
 		Assumptions: []string{
